@@ -28,7 +28,19 @@ def configs(tier, seed):
     if tier == 'quick':
         # every third 1-D configuration (rotated by seed), all 2-D ones
         out = [c for i, c in enumerate(out) if c['dim'] == 2 or (i + seed) % 3 == 0 or c['N'] <= 5]
+    _odd_configs(out)
     return out
+
+
+def _odd_configs(out):
+    for nm in ('db2', 'bior2.2'):
+        for fl in (0, 1):
+            w = 'odd:%s:%d' % (nm, fl)
+            for mode in ('zero', 'symmetric', 'reflect', 'periodic'):
+                for (J, n) in ((1, 12), (1, 13), (2, 24), (2, 25), (3, 38)):
+                    out.append(dict(dim=1, wave=w, mode=mode, J=J, N=n, B=1, C=1))
+                out.append(dict(dim=2, wave=w, mode=mode, J=1, H=12, W=13, B=1, C=1))
+                out.append(dict(dim=2, wave=w, mode=mode, J=2, H=16, W=14, B=1, C=2))
 
 
 def _kinds(cfg):
@@ -73,7 +85,8 @@ def case(cfg, ident):
     def impl(pw, ts):
         y = D.call_ctx(pw, cfg, lambda a: _roundtrip(pw, cfg, a[0]), ts)
         sp = D.in_shape(cfg)[2:]
-        ok = len(y.shape) == len(sp) + 2 and all(g == s_ or (s_ % 2 == 1 and g == s_ + 1) for g, s_ in zip(tuple(y.shape[2:]), sp))
+        odd_bank = str(cfg['wave']).startswith('odd:')      # an odd-length bank yields 2*ceil((N+L-1)/2)-L+2 = N+1 samples for even N too
+        ok = len(y.shape) == len(sp) + 2 and all(g == s_ or ((s_ % 2 == 1 or odd_bank) and g == s_ + 1) for g, s_ in zip(tuple(y.shape[2:]), sp))
         if not ok:
             raise AssertionError('reconstruction has shape %s for input %s (N or N+1 per axis expected)' % (tuple(y.shape), D.in_shape(cfg)))
         return [('rec', _crop(y, cfg))]
@@ -101,6 +114,12 @@ def run_config(cfg):
     fo = core.outcome(lambda: _fwd_only(symtorch.real(), cfg, rt.zeros(*shape, dtype=rt.float64)))
     if fo[0] != 'ok':
         res.status = 'skipped'; res.notes.append('forward transform raises (%s): outside the quantifier of C02' % (fo[1],))
+        return res
+    if str(cfg['wave']).startswith('odd:'):
+        # odd-length perfect-reconstruction bank (dwtlib.odd_bank): PyWavelets is no oracle (it pads such banks to even length);
+        # the property itself - the round trip returns the input - is the specification
+        in_specs, impl, ref = case(cfg, True)
+        lincheck.check_linear(res, cfg, facts, in_specs, impl, ref, tau_rel=1e-7, what='reconstruction vs the input')
         return res
     try:
         rows = _oracle_rec_rows(cfg)
